@@ -38,3 +38,18 @@ func init() {
 		Mutant{Property: "C17", Name: "not-encoded-through-pointer", File: expr, Old: "\t\t\"$not\": n.expression,\n", New: "\t\t\"$not\": []Builder{n.expression},\n", Expect: "R17d:not"},
 	)
 }
+
+func init() {
+	const col = "libs/bun/bunpaginate/pagination_column.go"
+	addMutants(
+		Mutant{Property: "C17", Name: "previous-cursor-positioned-on-the-extra-row", File: col, Old: "paginationIDs[len(paginationIDs)-2]", New: "paginationIDs[len(paginationIDs)-1]", Expect: "R17e:"},
+		Mutant{Property: "C17", Name: "next-cursor-positioned-on-the-last-row-shown", File: col, Old: "\t\t\tcp.PaginationID = (*big.Int)(paginationIDs[len(paginationIDs)-1])\n\t\t\tnext = &cp", New: "\t\t\tcp.PaginationID = (*big.Int)(paginationIDs[len(paginationIDs)-2])\n\t\t\tnext = &cp", Expect: "R17e:"},
+		Mutant{Property: "C17", Name: "reverse-bound-made-inclusive", File: col, Old: "fmt.Sprintf(\"%s < ?\", query.Column)", New: "fmt.Sprintf(\"%s <= ?\", query.Column)", Expect: "R17e:"},
+		Mutant{Property: "C17", Name: "forward-bound-made-strict", File: col, Old: "fmt.Sprintf(\"%s <= ?\", query.Column)", New: "fmt.Sprintf(\"%s < ?\", query.Column)", Expect: "R17e:"},
+		Mutant{Property: "C17", Name: "boundary-variable-for-the-next-cursor-only", File: col,
+			Old:    "\tif hasMore {\n\t\tret = ret[:len(ret)-1]\n\t}\n",
+			New:    "\tvar boundary *big.Int\n\tif hasMore {\n\t\tboundary = (*big.Int)(paginationIDs[len(paginationIDs)-1])\n\t\tret = ret[:len(ret)-1]\n\t}\n",
+			Edits:  []Edit{{File: col, Old: "\t\t\tcp.PaginationID = (*big.Int)(paginationIDs[len(paginationIDs)-1])\n\t\t\tnext = &cp", New: "\t\t\tcp.PaginationID = boundary\n\t\t\tnext = &cp"}},
+			Expect: "none", Benign: true},
+	)
+}
